@@ -26,9 +26,13 @@ theorem compare_scalar_step (g f : Nat) (lj rj : JE) (l r : Bytes)
   simp only [decide_eq_true_eq, Int.natCast_inj, ne_eq]
   by_cases h0 : Fn.level lj.ty = Fn.level rj.ty
   swap
-  · simp only [if_pos h0, Ctl.ret_bind', Ctl.run_ret', ne_eq, not_false_eq_true]
+  · have h0s : ¬ Fn.level rj.ty = Fn.level lj.ty := fun c => h0 c.symm
+    have hcs : compare (Fn.level rj.ty) (Fn.level lj.ty) = (compare (Fn.level lj.ty) (Fn.level rj.ty)).swap :=
+      (Nat.compare_swap _ _).symm
+    simp only [if_pos h0, if_pos h0s, Ctl.ret_bind', Ctl.run_ret', ne_eq, not_false_eq_true]
   have h0' : ¬ ¬ Fn.level lj.ty = Fn.level rj.ty := fun c => c h0
-  simp only [if_neg h0', Ctl.pure_eq', Ctl.val_bind', ne_eq]
+  have h0'' : ¬ ¬ Fn.level rj.ty = Fn.level lj.ty := fun c => c h0.symm
+  simp only [if_neg h0', if_neg h0'', Ctl.pure_eq', Ctl.val_bind', ne_eq]
   by_cases h1 : lj.ty = C.NULL_TAG ∧ rj.ty = C.NULL_TAG
   · simp only [if_pos h1, Ctl.run_ret']
   simp only [if_neg h1]
